@@ -1929,6 +1929,9 @@ class Executor:
             for w in (7, 8):
                 if not self.feasible(Not(And(za % (2 ** w) == 0, zb >= 0, zb < 2 ** w))):
                     return za + zb
+            w_ = getattr(self, 'lshift_width', {}).get(za.get_id()) if hasattr(za, 'get_id') else None
+            if w_ is not None and not self.feasible(Not(And(zb >= 0, zb < self.X.pow2(w_)))):
+                return za + zb                  # the same rule for a symbolic width: za is x * 2**w by construction
             return self.bitop_sym(a, b, 'or')
         if isinstance(op, ast.BitXor):
             return self.bitop_sym(a, b, 'xor')
@@ -1966,7 +1969,12 @@ class Executor:
                 if k < 0:
                     raise _Raise(ExcV('ValueError'))
                 return a * (2 ** k)
-            return a * self.X.pow2(b)
+            r_ = a * self.X.pow2(b)
+            # remember the shift width of this very term: `(x << w) | y` with 0 <= y < 2**w is `+` (disjoint bits)
+            if not hasattr(self, 'lshift_width'):
+                self.lshift_width = {}
+            self.lshift_width[r_.get_id()] = b
+            return r_
         if isinstance(op, ast.Pow):
             ca, cb = concrete(a), concrete(b)
             if ca == 2:
